@@ -1,4 +1,770 @@
+//! End to end: source Chain -> Segmenter -> (segments as bytes) -> Desegmenter on a header-synced receiver,
+//! compared with the archive header, with a block-by-block twin and with the source; archive path.
+//!   e2e build : builds source chain (+ optional compaction), stale segments, twin, all segments, archive zip
+//!   e2e run   : executes delivery scenarios (orders chosen by spec/Desegmenter.tla) on fresh receivers,
+//!               records one trace per scenario (validated by spec/trace/DesegmenterTrace.tla) and the
+//!               final-state comparisons.
+use crate::comp::PlainSeg;
+use chrono::Duration;
+use grin_chain::txhashset::{BitmapChunk, BitmapSegment};
+use grin_chain::types::{NoStatus, NoopAdapter};
+use grin_chain::{Chain, Options, SyncState};
+use grin_core::core::hash::{Hash, Hashed};
+use grin_core::core::pmmr::segment::{Segment, SegmentIdentifier, SegmentType};
+use grin_core::core::{
+	Block, BlockHeader, FeeFields, KernelFeatures, OutputIdentifier, Transaction, TxKernel,
+};
+use grin_core::global::{self, ChainTypes};
+use grin_core::libtx::{build, reward, ProofBuilder};
+use grin_core::pow::{self, Difficulty};
+use grin_core::ser::{self, DeserializationMode, ProtocolVersion, Readable, Writeable};
+use grin_core::genesis;
+use grin_keychain::{ExtKeychain, ExtKeychainPath, Identifier, Keychain};
+use grin_util::secp::pedersen::{Commitment, RangeProof};
+use grin_util::{StopState, ToHex};
+use rand::rngs::StdRng;
+use rand::{Rng, SeedableRng};
+use serde_json::{json, Value};
+use std::fs::{self, File};
+use std::io::{Read, Write};
+use std::panic::{catch_unwind, AssertUnwindSafe};
+use std::sync::Arc;
 use vcommon::*;
-pub fn run(_args: &Args) -> i32 {
-	2
+
+const UNIT: u64 = 15_000_000_000;
+const TREES: [&str; 4] = ["bitmap", "output", "rangeproof", "kernel"];
+
+fn keychain() -> ExtKeychain {
+	ExtKeychain::from_seed(&[7u8; 32], false).unwrap()
+}
+fn kid(a: u32, b: u32) -> Identifier {
+	ExtKeychainPath::new(3, a, b, 0, 0).to_identifier()
+}
+
+fn pv() -> ProtocolVersion {
+	crate::comp::WIRE
+}
+
+fn to_bytes<W: Writeable>(w: &W) -> Vec<u8> {
+	ser::ser_vec(w, pv()).expect("ser")
+}
+fn from_bytes<T: Readable>(b: &[u8]) -> Result<T, ser::Error> {
+	ser::deserialize(&mut &b[..], pv(), DeserializationMode::default())
+}
+
+fn init_chain(dir: &str, genesis: &Block) -> Chain {
+	Chain::init(
+		dir.to_string(),
+		Arc::new(NoopAdapter {}),
+		genesis.clone(),
+		pow::verify_size,
+		false,
+		None,
+	)
+	.expect("chain init")
+}
+
+fn hx(h: &Hash) -> String {
+	h.to_hex()
+}
+
+struct Utxo {
+	key: Identifier,
+	value: u64,
+	coinbase: bool,
+	height: u64,
+	group: u64,
+}
+
+fn unspent_json(chain: &Chain, commits: &[(String, Commitment)]) -> Value {
+	let mut m = serde_json::Map::new();
+	for (name, c) in commits {
+		let v = match chain.get_unspent(*c) {
+			Ok(Some((oid, pos))) => json!({"pos": pos.pos, "h": pos.height, "f": format!("{:?}", oid.features)}),
+			Ok(None) => Value::Null,
+			Err(e) => json!({"err": format!("{}", e)}),
+		};
+		m.insert(name.clone(), v);
+	}
+	Value::Object(m)
+}
+
+fn roots_json(chain: &Chain, header: &BlockHeader) -> Value {
+	let r = chain.txhashset().read().roots().expect("roots");
+	json!({
+		"output": hx(&r.output_roots.root(header)),
+		"output_pmmr": hx(&r.output_roots.pmmr_root),
+		"bitmap": hx(&r.output_roots.bitmap_root),
+		"rangeproof": hx(&r.rproof_root),
+		"kernel": hx(&r.kernel_root),
+	})
+}
+
+fn header_roots_json(h: &BlockHeader) -> Value {
+	json!({"output": hx(&h.output_root), "rangeproof": hx(&h.range_proof_root), "kernel": hx(&h.kernel_root)})
+}
+
+fn write_blocks(path: &str, blocks: &[Block]) {
+	let mut f = File::create(path).expect("blocks file");
+	for b in blocks {
+		let bytes = to_bytes(b);
+		f.write_all(&(bytes.len() as u64).to_be_bytes()).unwrap();
+		f.write_all(&bytes).unwrap();
+	}
+}
+
+fn read_blocks(path: &str) -> Vec<Block> {
+	let mut buf = vec![];
+	File::open(path).expect("blocks").read_to_end(&mut buf).unwrap();
+	let mut res = vec![];
+	let mut i = 0;
+	while i < buf.len() {
+		let n = u64::from_be_bytes(buf[i..i + 8].try_into().unwrap()) as usize;
+		i += 8;
+		res.push(from_bytes::<Block>(&buf[i..i + n]).expect("block"));
+		i += n;
+	}
+	res
+}
+
+fn heights_arg(args: &Args) -> [u8; 4] {
+	let s = args.get("heights").unwrap_or("9,11,11,11");
+	let v: Vec<u8> = s.split(',').map(|x| x.parse().unwrap()).collect();
+	[v[0], v[1], v[2], v[3]]
+}
+
+/// All segments of the four trees for the segmenter's header, as wire bytes.
+fn dump_segments(chain: &Chain, heights: [u8; 4], dir: &str, prefix: &str) -> Value {
+	let seg = chain.segmenter().expect("segmenter");
+	let header = seg.header().clone();
+	let n_out_leaves = grin_core::core::pmmr::n_leaves(header.output_mmr_size);
+	let bitmap_leaves = (n_out_leaves + 1023) / 1024;
+	let bitmap_size = grin_core::core::pmmr::insertion_to_pmmr_index(bitmap_leaves);
+	let sizes = [
+		bitmap_size,
+		header.output_mmr_size,
+		header.output_mmr_size,
+		header.kernel_mmr_size,
+	];
+	let mut info = serde_json::Map::new();
+	info.insert("height".into(), json!(header.height));
+	info.insert("hash".into(), json!(hx(&header.hash())));
+	info.insert("output_leaves".into(), json!(n_out_leaves));
+	for (t, tree) in TREES.iter().enumerate() {
+		let n = SegmentIdentifier::count_segments_required(sizes[t], heights[t]);
+		let mut lasts = vec![];
+		let mut complete = vec![];
+		let mut nleaves = vec![];
+		let mut nhashes = vec![];
+		let mut nproof = vec![];
+		for idx in 0..n as u64 {
+			let id = SegmentIdentifier { height: heights[t], idx };
+			let (first, last) = id.segment_pos_range(sizes[t]);
+			lasts.push(last);
+			let all_leaves = (first..=last).filter(|p| grin_core::core::pmmr::is_leaf(*p)).count();
+			let path = format!("{}/{}{}_{}.seg", dir, prefix, tree, idx);
+			let (nl, nh, np, bytes, extra): (usize, usize, usize, Vec<u8>, Option<Hash>) = match *tree {
+				"bitmap" => {
+					let (s, root) = seg.bitmap_segment(id).expect("bitmap segment");
+					(s.leaf_iter().count(), s.hash_iter().count(), s.proof().size(), to_bytes(&BitmapSegment::from(s)), Some(root))
+				}
+				"output" => {
+					let (s, root) = seg.output_segment(id).expect("output segment");
+					(s.leaf_iter().count(), s.hash_iter().count(), s.proof().size(), to_bytes(&s), Some(root))
+				}
+				"rangeproof" => {
+					let s = seg.rangeproof_segment(id).expect("rangeproof segment");
+					(s.leaf_iter().count(), s.hash_iter().count(), s.proof().size(), to_bytes(&s), None)
+				}
+				_ => {
+					let s = seg.kernel_segment(id).expect("kernel segment");
+					(s.leaf_iter().count(), s.hash_iter().count(), s.proof().size(), to_bytes(&s), None)
+				}
+			};
+			fs::write(&path, &bytes).expect("write seg");
+			if let Some(r) = extra {
+				fs::write(format!("{}.root", path), hx(&r)).unwrap();
+			}
+			complete.push(nl == all_leaves);
+			nleaves.push(nl);
+			nhashes.push(nh);
+			nproof.push(np);
+		}
+		info.insert(
+			tree.to_string(),
+			json!({"height": heights[t], "size": sizes[t], "nseg": n, "last": lasts, "complete": complete,
+				"leaves": nleaves, "hashes": nhashes, "proof": nproof}),
+		);
+	}
+	Value::Object(info)
+}
+
+pub fn run(args: &Args) -> i32 {
+	global::set_local_chain_type(ChainTypes::AutomatedTesting);
+	if std::env::var("VERIF_LOG").is_ok() {
+		grin_util::init_test_logger();
+	}
+	match args.pos.get(1).map(|s| s.as_str()) {
+		Some("build") => build_phase(args),
+		Some("run") => run_phase(args),
+		_ => {
+			eprintln!("segment e2e build|run");
+			2
+		}
+	}
+}
+
+// ---------------------------------------------------------------------------------------------
+// phase 1
+
+fn build_phase(args: &Args) -> i32 {
+	let dir = args.req("dir").to_string();
+	let _ = fs::remove_dir_all(&dir);
+	fs::create_dir_all(&dir).unwrap();
+	let n_blocks = args.u64("blocks", 64);
+	let compact_at = args.u64("compact-at", 0);
+	let stale_at = args.u64("stale-at", n_blocks - 10);
+	let max_outs = args.u64("max-outs", 5);
+	let heights = heights_arg(args);
+	let mut rng = StdRng::seed_from_u64(args.u64("seed", 1));
+	let kc = keychain();
+	let pb = ProofBuilder::new(&kc);
+
+	// one genesis object for every node of the scenario (its kernel signature is randomised)
+	let gr = reward::output(&kc, &pb, &kid(1, 0), 0, false).unwrap();
+	let mut g = genesis::genesis_dev().with_reward(gr.0.clone(), gr.1);
+	g.header.output_mmr_size = 1;
+	g.header.kernel_mmr_size = 1;
+	fs::write(format!("{}/genesis.bin", dir), to_bytes(&g)).unwrap();
+
+	let src = init_chain(&format!("{}/src/chain_data", dir), &g);
+	let mut blocks: Vec<Block> = vec![g.clone()];
+	let mut commits: Vec<(String, Commitment)> = vec![("g".into(), gr.0.commitment())];
+	let mut utxos: Vec<Utxo> = vec![Utxo { key: kid(1, 0), value: 60_000_000_000, coinbase: true, height: 0, group: 0 }];
+	let mut next_key = 0u32;
+	let mut stale = Value::Null;
+	let mut compacted = false;
+	let mut n_spends = 0u64;
+	for h in 1..=n_blocks {
+		let prev = blocks[(h - 1) as usize].header.clone();
+		// spend 1..3 matured outputs (preferably neighbours created by one transaction) into several outputs
+		let spendable: Vec<usize> = (0..utxos.len())
+			.filter(|i| !utxos[*i].coinbase || utxos[*i].height + 4 <= h)
+			.collect();
+		let mut txs: Vec<Transaction> = vec![];
+		let mut fees = 0u64;
+		if !spendable.is_empty() && rng.gen_range(0, 10) < 9 {
+			let first = spendable[rng.gen_range(0, spendable.len())];
+			let grp = utxos[first].group;
+			let mut ins: Vec<usize> = vec![first];
+			let want = rng.gen_range(1, 4);
+			for i in &spendable {
+				if ins.len() < want && *i != first && (utxos[*i].group == grp || rng.gen_range(0, 4) == 0) {
+					ins.push(*i);
+				}
+			}
+			ins.sort();
+			let total: u64 = ins.iter().map(|i| utxos[*i].value).sum();
+			let fee = UNIT / 15; // 1 grin
+			let k = rng.gen_range(1, max_outs + 1);
+			let mut elems = vec![];
+			for i in &ins {
+				let u = &utxos[*i];
+				elems.push(if u.coinbase {
+					build::coinbase_input(u.value, u.key.clone())
+				} else {
+					build::input(u.value, u.key.clone())
+				});
+			}
+			let each = (total - fee) / k;
+			let mut new_utxos = vec![];
+			for j in 0..k {
+				let v = if j + 1 == k { total - fee - each * (k - 1) } else { each };
+				next_key += 1;
+				let key = kid(2, next_key);
+				elems.push(build::output(v, key.clone()));
+				new_utxos.push(Utxo { key, value: v, coinbase: false, height: h, group: h });
+			}
+			let tx = build::transaction(
+				KernelFeatures::Plain { fee: FeeFields::new(0, fee).unwrap() },
+				&elems,
+				&kc,
+				&pb,
+			)
+			.expect("build tx");
+			for (j, o) in tx.outputs().iter().enumerate() {
+				commits.push((format!("t{}_{}", h, j), o.commitment()));
+			}
+			for i in ins.iter().rev() {
+				utxos.remove(*i);
+			}
+			utxos.extend(new_utxos);
+			txs.push(tx);
+			fees = fee;
+			n_spends += 1;
+		}
+		let rw = reward::output(&kc, &pb, &kid(1, h as u32), fees, false).unwrap();
+		commits.push((format!("c{}", h), rw.0.commitment()));
+		utxos.push(Utxo { key: kid(1, h as u32), value: 60_000_000_000 + fees, coinbase: true, height: h, group: 1_000_000 + h });
+		let mut blk = Block::new(&prev, &txs, Difficulty::from_num(1), rw).expect("block new");
+		blk.header.timestamp = prev.timestamp + Duration::seconds(60);
+		src.set_txhashset_roots(&mut blk).expect("roots");
+		src.process_block(blk.clone(), Options::SKIP_POW).expect("process on source");
+		blocks.push(blk);
+		if h == stale_at {
+			stale = dump_segments(&src, heights, &dir, "stale_");
+		}
+		if h == compact_at {
+			src.compact().expect("compact");
+			compacted = true;
+		}
+	}
+	let archive = src.txhashset_archive_header().expect("archive header");
+	let seginfo = dump_segments(&src, heights, &dir, "");
+	assert_eq!(seginfo["hash"].as_str().unwrap(), hx(&archive.hash()));
+	write_blocks(&format!("{}/blocks.bin", dir), &blocks);
+	let names: Vec<Value> = commits.iter().map(|(n, c)| json!([n, c.to_hex()])).collect();
+
+	// the state archive of the source for the archive header
+	let mut zip_ok = false;
+	match src.txhashset_read(archive.hash()) {
+		Ok((_o, _k, mut f)) => {
+			let mut out = File::create(format!("{}/archive.zip", dir)).unwrap();
+			std::io::copy(&mut f, &mut out).unwrap();
+			zip_ok = true;
+		}
+		Err(e) => eprintln!("txhashset_read failed: {}", e),
+	}
+
+	// block-by-block twin up to the archive header
+	let twin = init_chain(&format!("{}/twin/chain_data", dir), &g);
+	for b in &blocks[1..=(archive.height as usize)] {
+		twin.process_block(b.clone(), Options::SKIP_POW).expect("process on twin");
+	}
+	let twin_proj = json!({
+		"head": hx(&twin.head().unwrap().last_block_h),
+		"roots": roots_json(&twin, &archive),
+		"unspent": unspent_json(&twin, &commits),
+		"validate": twin.validate(false).is_ok(),
+	});
+	let src_head = src.head().unwrap();
+	let src_header = src.head_header().unwrap();
+	let src_proj = json!({
+		"head": hx(&src_head.last_block_h),
+		"height": src_head.height,
+		"roots": roots_json(&src, &src_header),
+		"unspent": unspent_json(&src, &commits),
+		"validate": src.validate(false).is_ok(),
+	});
+	let info = json!({
+		"blocks": n_blocks, "spends": n_spends, "compacted": compacted, "compact_at": compact_at,
+		"archive": seginfo, "stale": stale, "archive_header_roots": header_roots_json(&archive),
+		"twin": twin_proj, "source": src_proj, "commits": names, "zip_ok": zip_ok,
+		"outputs_total": commits.len(),
+	});
+	fs::write(format!("{}/info.json", dir), serde_json::to_vec(&info).unwrap()).unwrap();
+	println!(
+		"{}",
+		json!({"archive_height": archive.height, "spends": n_spends, "outputs": commits.len(),
+			"nseg": TREES.iter().map(|t| seginfo[*t]["nseg"].clone()).collect::<Vec<_>>(), "zip_ok": zip_ok})
+	);
+	0
+}
+
+// ---------------------------------------------------------------------------------------------
+// phase 2
+
+struct Rx {
+	chain: Chain,
+	archive: BlockHeader,
+}
+
+fn new_receiver(dir: &str, g: &Block, blocks: &[Block], archive_height: u64) -> Result<Rx, String> {
+	let _ = fs::remove_dir_all(dir);
+	let chain = init_chain(&format!("{}/chain_data", dir), g);
+	let headers: Vec<BlockHeader> = blocks[1..].iter().map(|b| b.header.clone()).collect();
+	let sync_head = chain.header_head().map_err(|e| format!("{}", e))?;
+	for chunk in headers.chunks(32) {
+		chain
+			.sync_block_headers(chunk, sync_head, Options::SKIP_POW)
+			.map_err(|e| format!("sync_block_headers: {}", e))?;
+	}
+	let archive = chain
+		.txhashset_archive_header_header_only()
+		.map_err(|e| format!("{}", e))?;
+	if archive.height != archive_height {
+		return Err(format!("receiver archive header {} != source {}", archive.height, archive_height));
+	}
+	Ok(Rx { chain, archive })
+}
+
+/// The corruption kinds of the scenarios, applied to the wire bytes of an honest segment.
+fn corrupt<T: Clone + Readable + Writeable> (
+	bytes: &[u8],
+	kind: &str,
+	alt: &dyn Fn(&mut PlainSeg<T>),
+) -> Result<Segment<T>, String> {
+	let seg: Segment<T> = from_bytes(bytes).map_err(|e| format!("unreadable: {}", e))?;
+	corrupt_seg(seg, kind, alt, false)
+}
+
+fn corrupt_seg<T: Clone + Readable + Writeable> (
+	seg: Segment<T>,
+	kind: &str,
+	alt: &dyn Fn(&mut PlainSeg<T>),
+	direct: bool,
+) -> Result<Segment<T>, String> {
+	let mut ps = PlainSeg::of(&seg);
+	match kind {
+		"honest" | "stale" | "wrong_tree" => {}
+		"alt_leaf" => alt(&mut ps),
+		"omit_leaf" => {
+			ps.leaf_pos.pop();
+			ps.leaf_data.pop();
+		}
+		"drop_proof" => {
+			ps.proof.pop();
+		}
+		"alt_proof" => {
+			let n = ps.proof.len();
+			ps.proof[n - 1] = junk_hash();
+		}
+		"wrong_id" => ps.idx += 1,
+		x => panic!("kind {}", x),
+	}
+	if direct {
+		ps.to_segment_direct().map_err(|e| format!("unreadable: {}", e))
+	} else {
+		ps.to_segment().map_err(|e| format!("unreadable: {}", e))
+	}
+}
+
+fn swap_last_two<T: Clone>(ps: &mut PlainSeg<T>) {
+	let n = ps.leaf_data.len();
+	if n >= 2 {
+		ps.leaf_data.swap(n - 1, n - 2);
+	}
+}
+
+fn applied_count(h: u8, total: u64, local: u64) -> u64 {
+	let n = SegmentIdentifier::count_segments_required(total, h) as u64;
+	let mut k = 0;
+	while k < n && (SegmentIdentifier { height: h, idx: k }).segment_pos_range(total).1 < local {
+		k += 1;
+	}
+	k
+}
+
+fn tree_name(t: &SegmentType) -> &'static str {
+	match t {
+		SegmentType::Bitmap => "bitmap",
+		SegmentType::Output => "output",
+		SegmentType::RangeProof => "rangeproof",
+		SegmentType::Kernel => "kernel",
+	}
+}
+
+fn run_phase(args: &Args) -> i32 {
+	let dir = args.req("dir").to_string();
+	let work = args.req("work").to_string();
+	let g: Block = from_bytes(&fs::read(format!("{}/genesis.bin", dir)).unwrap()).expect("genesis");
+	let blocks = read_blocks(&format!("{}/blocks.bin", dir));
+	let info: Value = serde_json::from_slice(&fs::read(format!("{}/info.json", dir)).unwrap()).unwrap();
+	let commits: Vec<(String, Commitment)> = info["commits"]
+		.as_array()
+		.unwrap()
+		.iter()
+		.map(|x| {
+			(
+				x[0].as_str().unwrap().to_string(),
+				Commitment::from_vec(grin_util::from_hex(x[1].as_str().unwrap()).unwrap()),
+			)
+		})
+		.collect();
+	let ainfo = &info["archive"];
+	let archive_height = ainfo["height"].as_u64().unwrap();
+	let heights: Vec<u8> = TREES.iter().map(|t| ainfo[*t]["height"].as_u64().unwrap() as u8).collect();
+	let scens = read_ndjson(args.req("scen"));
+	let mut out = NdWriter::create(args.req("out"));
+	for (si, sc) in scens.iter().enumerate() {
+		let name = sc["name"].as_str().unwrap_or("?").to_string();
+		let rdir = format!("{}/rx_{}", work, si);
+		let mut events: Vec<Value> = vec![];
+		let mut problems: Vec<Value> = vec![];
+		let rx = match new_receiver(&rdir, &g, &blocks, archive_height) {
+			Ok(r) => r,
+			Err(e) => {
+				out.put(&json!({"name": name, "tool_error": e}));
+				continue;
+			}
+		};
+		let status = Arc::new(SyncState::new());
+		let stop = Arc::new(StopState::new());
+		let mut finalised_ok = false;
+		if sc["kind"].as_str() == Some("archive") {
+			let f = File::open(format!("{}/archive.zip", dir)).expect("zip");
+			let r = catch_unwind(AssertUnwindSafe(|| rx.chain.txhashset_write(rx.archive.hash(), f, &NoStatus)));
+			let res = match &r {
+				Ok(Ok(false)) => "ok".to_string(),
+				Ok(Ok(true)) => "ban".to_string(),
+				Ok(Err(e)) => format!("err: {}", e),
+				Err(_) => "panic".to_string(),
+			};
+			finalised_ok = res == "ok";
+			events.push(json!({"k": "ArchiveWrite", "res": res}));
+		} else {
+			// regression probe: Desegmenter::new used to panic for archive headers with <= 1024 outputs
+			let d = catch_unwind(AssertUnwindSafe(|| rx.chain.desegmenter(&rx.archive)));
+			let d = match d {
+				Ok(Ok(d)) => d,
+				Ok(Err(e)) => {
+					out.put(&json!({"name": name, "tool_error": format!("desegmenter: {}", e)}));
+					continue;
+				}
+				Err(_) => {
+					let sig = if ainfo["output_leaves"].as_u64().unwrap() <= 1024 {
+						"pibd:desegmenter_new:panic:single_bitmap_chunk"
+					} else {
+						"pibd:desegmenter_new:panic"
+					};
+					problems.push(json!({"sig": sig, "what": "Chain::desegmenter panicked"}));
+					out.put(&json!({"name": name, "events": events, "problems": problems, "final": Value::Null}));
+					continue;
+				}
+			};
+			let sizes: Vec<u64> = TREES.iter().map(|t| ainfo[*t]["size"].as_u64().unwrap()).collect();
+			let proj = |events_len: usize| -> Value {
+				let _ = events_len;
+				let (o, r, k) = {
+					let t = rx.chain.txhashset();
+					let t = t.read();
+					(t.output_mmr_size(), t.rangeproof_mmr_size(), t.kernel_mmr_size())
+				};
+				let mut desired: Vec<Value> = vec![];
+				if let Some(de) = d.write().as_mut() {
+					for s in de.next_desired_segments(3000) {
+						desired.push(json!([tree_name(&s.segment_type), s.identifier.idx, s.identifier.height]));
+					}
+				}
+				json!({
+					"applied": {"output": applied_count(heights[1], sizes[1], o), "rangeproof": applied_count(heights[2], sizes[2], r),
+						"kernel": applied_count(heights[3], sizes[3], k)},
+					"sizes": [o, r, k],
+					"desired": desired,
+				})
+			};
+			let mut complete = false;
+			let mut do_apply = |events: &mut Vec<Value>, complete: &mut bool| {
+				let r = catch_unwind(AssertUnwindSafe(|| {
+					let mut guard = d.write();
+					let de = guard.as_mut().unwrap();
+					let a = de.apply_next_segments();
+					let c = de.check_progress(status.clone());
+					(a.map_err(|e| format!("{}", e)), c.map_err(|e| format!("{}", e)))
+				}));
+				match r {
+					Ok((a, c)) => {
+						*complete = c.clone().unwrap_or(false);
+						let mut e = json!({"k": "Apply", "res": if a.is_ok() { "ok" } else { "err" }, "complete": *complete});
+						if let Err(x) = a {
+							e["err"] = json!(x);
+						}
+						if let Err(x) = c {
+							e["progress_err"] = json!(x);
+						}
+						e["proj"] = proj(0);
+						events.push(e);
+					}
+					Err(_) => events.push(json!({"k": "Apply", "res": "panic", "complete": false})),
+				}
+			};
+			for st in sc["steps"].as_array().unwrap() {
+				match st["k"].as_str().unwrap() {
+					"Apply" => do_apply(&mut events, &mut complete),
+					"Add" => {
+						let tree = st["tree"].as_str().unwrap();
+						let idx = st["idx"].as_u64().unwrap();
+						let kind = st["kind"].as_str().unwrap();
+						let from_tree = st["from"].as_str().unwrap_or(tree);
+						let prefix = if kind == "stale" { "stale_" } else { "" };
+						let path = format!("{}/{}{}_{}.seg", dir, prefix, from_tree, idx);
+						let bytes = match fs::read(&path) {
+							Ok(b) => b,
+							Err(_) => {
+								events.push(json!({"k": "Add", "tree": tree, "idx": idx, "kind": kind, "verdict": "unavailable"}));
+								continue;
+							}
+						};
+						let other_root = fs::read_to_string(format!("{}/{}_{}.seg.root", dir, tree, idx))
+							.ok()
+							.map(|s| Hash::from_hex(s.trim()).unwrap());
+						let r = catch_unwind(AssertUnwindSafe(|| -> Result<(), String> {
+							let mut guard = d.write();
+							let de = guard.as_mut().unwrap();
+							match tree {
+								"bitmap" => {
+									let bs: BitmapSegment = from_bytes(&bytes).map_err(|e| format!("unreadable: {}", e))?;
+									let s0: Segment<BitmapChunk> = bs.into_segment().map_err(|e| format!("unreadable: {}", e))?;
+									let s = corrupt_seg::<BitmapChunk>(s0, kind, &|ps| {
+										let n = ps.leaf_data.len();
+										let old = ps.leaf_data[n - 1].clone();
+										let mut c = BitmapChunk::new();
+										let set: Vec<u32> = old.set_iter(0).collect();
+										for i in &set {
+											c.set(*i as u64, true);
+										}
+										c.set(5, !set.contains(&5));
+										ps.leaf_data[n - 1] = c;
+									}, true)?;
+									de.add_bitmap_segment(s, other_root.unwrap()).map_err(|e| format!("{}", e))
+								}
+								"output" => {
+									let s = corrupt::<OutputIdentifier>(&bytes, kind, &swap_last_two)?;
+									de.add_output_segment(s, other_root).map_err(|e| format!("{}", e))
+								}
+								"rangeproof" => {
+									let s = corrupt::<RangeProof>(&bytes, kind, &swap_last_two)?;
+									de.add_rangeproof_segment(s).map_err(|e| format!("{}", e))
+								}
+								_ => {
+									let s = corrupt::<TxKernel>(&bytes, kind, &swap_last_two)?;
+									de.add_kernel_segment(s).map_err(|e| format!("{}", e))
+								}
+							}
+						}));
+						let (verdict, err) = match r {
+							Ok(Ok(())) => ("accept", String::new()),
+							Ok(Err(e)) => (if e.starts_with("unreadable") { "unreadable" } else { "refuse" }, e),
+							Err(_) => ("panic", String::new()),
+						};
+						let mut e = json!({"k": "Add", "tree": tree, "idx": idx, "kind": kind, "verdict": verdict, "err": err});
+						if verdict != "panic" {
+							e["proj"] = proj(0);
+						}
+						events.push(e);
+					}
+					x => panic!("step {}", x),
+				}
+			}
+			// drain: keep applying until complete or no progress is possible
+			let mut rounds = 0;
+			while !complete && rounds < sc["drain"].as_u64().unwrap_or(8) {
+				do_apply(&mut events, &mut complete);
+				rounds += 1;
+			}
+			let res = if complete {
+				let r = catch_unwind(AssertUnwindSafe(|| {
+					// as servers/src/grin/sync/state_sync.rs does once check_progress reports completion
+					let guard = d.read();
+					let de = guard.as_ref().unwrap();
+					de.check_update_leaf_set_state()?;
+					de.validate_complete_state(status.clone(), stop.clone())
+				}));
+				match r {
+					Ok(Ok(())) => "ok".to_string(),
+					Ok(Err(e)) => format!("err: {}", e),
+					Err(_) => "panic".to_string(),
+				}
+			} else {
+				"incomplete".to_string()
+			};
+			finalised_ok = res == "ok";
+			events.push(json!({"k": "Finalize", "complete": complete, "res": if finalised_ok { "ok" } else if complete { "err" } else { "incomplete" }, "detail": res}));
+		}
+
+		// ---- final-state comparisons
+		let head = rx.chain.head().unwrap();
+		let at_archive = head.last_block_h == rx.archive.hash();
+		let roots = roots_json(&rx.chain, &rx.archive);
+		let hr = &info["archive_header_roots"];
+		let roots_eq_header = roots["output"] == hr["output"] && roots["rangeproof"] == hr["rangeproof"] && roots["kernel"] == hr["kernel"];
+		let mut fin = json!({"finalised": finalised_ok, "head_at_archive": at_archive, "head_height": head.height, "roots_eq_header": roots_eq_header});
+		if at_archive && head.height > 0 && !roots_eq_header {
+			problems.push(json!({"sig": "pibd:finalised_wrong_roots", "what": "body head is the archive header but the state roots differ from it", "roots": roots, "header": hr}));
+		}
+		if finalised_ok {
+			if !at_archive {
+				problems.push(json!({"sig": "sync:final:head", "what": "finalisation returned ok but head is not the archive header"}));
+			}
+			let tw = &info["twin"];
+			let unspent = unspent_json(&rx.chain, &commits);
+			let roots_eq_twin = roots == tw["roots"];
+			let unspent_eq_twin = unspent == tw["unspent"];
+			let validate = match catch_unwind(AssertUnwindSafe(|| rx.chain.validate(false))) {
+				Ok(Ok(())) => "ok".to_string(),
+				Ok(Err(e)) => format!("err: {}", e),
+				Err(_) => "panic".into(),
+			};
+			fin["roots_eq_twin"] = json!(roots_eq_twin);
+			fin["unspent_eq_twin"] = json!(unspent_eq_twin);
+			fin["validate"] = json!(validate);
+			if !roots_eq_twin {
+				problems.push(json!({"sig": "sync:final:roots_differ_from_twin", "what": "roots differ from the block-by-block twin", "rx": roots, "twin": tw["roots"]}));
+			}
+			if !unspent_eq_twin {
+				let diff: Vec<Value> = commits
+					.iter()
+					.filter(|(n, _)| unspent[n] != tw["unspent"][n])
+					.take(5)
+					.map(|(n, _)| json!({"c": n, "rx": unspent[n], "twin": tw["unspent"][n]}))
+					.collect();
+				problems.push(json!({"sig": "sync:final:unspent_differs_from_twin", "what": "get_unspent differs from the twin", "diff": diff}));
+			}
+			if (validate == "ok") != tw["validate"].as_bool().unwrap() {
+				problems.push(json!({"sig": "sync:final:validate", "what": format!("validate(false) = {} but twin validates", validate)}));
+			}
+			// the remaining blocks above the archive header must be accepted
+			let mut later = "ok".to_string();
+			for b in &blocks[(archive_height as usize + 1)..] {
+				let r = catch_unwind(AssertUnwindSafe(|| rx.chain.process_block(b.clone(), Options::SKIP_POW)));
+				match r {
+					Ok(Ok(_)) => {}
+					Ok(Err(e)) => {
+						later = format!("block {} refused: {}", b.header.height, e);
+						break;
+					}
+					Err(_) => {
+						later = format!("block {} panic", b.header.height);
+						break;
+					}
+				}
+			}
+			fin["later_blocks"] = json!(later);
+			if later != "ok" {
+				problems.push(json!({"sig": "sync:after:block_refused", "what": later}));
+			} else {
+				let sp = &info["source"];
+				let h2 = rx.chain.head().unwrap();
+				let hh = rx.chain.head_header().unwrap();
+				let roots2 = roots_json(&rx.chain, &hh);
+				let unspent2 = unspent_json(&rx.chain, &commits);
+				let validate2 = match catch_unwind(AssertUnwindSafe(|| rx.chain.validate(false))) {
+					Ok(Ok(())) => "ok".to_string(),
+					Ok(Err(e)) => format!("err: {}", e),
+					Err(_) => "panic".into(),
+				};
+				fin["after"] = json!({"head_eq_source": json!(hx(&h2.last_block_h)) == sp["head"], "roots_eq_source": roots2 == sp["roots"],
+					"unspent_eq_source": unspent2 == sp["unspent"], "validate": validate2});
+				if json!(hx(&h2.last_block_h)) != sp["head"] {
+					problems.push(json!({"sig": "sync:after:head", "what": "head differs from the source after the later blocks"}));
+				}
+				if roots2 != sp["roots"] {
+					problems.push(json!({"sig": "sync:after:roots", "what": "roots differ from the source after the later blocks"}));
+				}
+				if unspent2 != sp["unspent"] {
+					problems.push(json!({"sig": "sync:after:unspent", "what": "unspent set differs from the source after the later blocks"}));
+				}
+				if validate2 != "ok" {
+					problems.push(json!({"sig": "sync:after:validate", "what": validate2}));
+				}
+			}
+		}
+		out.put(&json!({"name": name, "kind": sc["kind"], "events": events, "final": fin, "problems": problems}));
+		drop(rx);
+		if args.get("keep").is_none() {
+			let _ = fs::remove_dir_all(&rdir);
+		}
+	}
+	out.finish();
+	0
 }
